@@ -114,6 +114,37 @@ def remove_dumping(config):
         if v.strip() != "dumping_output_handler"))
 
 
+def nearby_order(counts, layers, blob=None):
+    """The order in which the real ExcludedCellsTagger hands out (active, occupant) in-states on a crowded grid
+    (optionally for objects restored from a dill dump)."""
+    from jfv.checks.c10 import build, _set_motion
+    from jellyfysh.base.time import Time
+    import dill
+    dim = len(counts)
+    side = [1.0 / c for c in counts]
+    # one unit in the centre of every cell around the origin cell (and a few further away)
+    import itertools
+    positions = []
+    for off in itertools.product((-1, 0, 1), repeat=dim):
+        positions.append(tuple(((o + 0.5) * side[d]) % 1.0 for d, o in enumerate(off)))
+    origin = tuple(0.5 * side[d] for d in range(dim))
+    positions = tuple([origin] + [p for p in positions[::-1] if p != origin][:13])
+    case = ("cells", (1.0,) * dim, tuple(counts), layers, -1, "atoms", positions, tuple(1.0 for _ in positions))
+    if blob is None:
+        cells, occ, sh, taggers, level, filt = build(case)
+        b = sh.extract_from_global_state((0,))
+        _set_motion(b, (0,), Time(0.0, 0.0), dim)
+        sh.insert_into_global_state([b])
+        occ.update(sh.extract_active_global_state())
+        objs = (cells, occ, sh, taggers["excluded"])
+    else:
+        build(case)  # initialises the setting modules exactly as in the dumping process
+        objs = dill.loads(blob)
+    cells, occ, sh, tagger = objs
+    order = [[list(x) for x in ids] for ids in tagger.yield_identifiers_send_event_time(sh.extract_active_global_state())]
+    return objs, order
+
+
 def main(argv):
     mode, jobfile = argv
     with open(jobfile) as f:
@@ -122,6 +153,13 @@ def main(argv):
     sys.path.insert(0, here)
     from jfv import bootstrap
     bootstrap.boot()
+    if mode == "order":
+        import base64
+        blob = base64.b64decode(job["blob"]) if job.get("blob") else None
+        _, order = nearby_order(job["counts"], job["layers"], blob)
+        with open(job["out"], "w") as f:
+            json.dump({"order": order, "error": None, "log": [], "marks": []}, f)
+        return
     import random
     from jellyfysh.base.exceptions import EndOfRun
     install_patches()
